@@ -1,7 +1,7 @@
 From Coq Require Extraction ExtrOcamlBasic.
-From PV Require Import Lib.Bytes Gen.CondSimpSets Spec.BmakeCond Model.CondSimp.
+From PV Require Import Lib.Bytes Gen.CondSimpSets Spec.BmakeCond Spec.PrefsFile Model.CondSimp Model.CondFile.
 (* the oracle: the model's walk over a condition + Autofix.Replace (check_line,
    walk), the spec's reader and evaluator (parse_cond, eval_text), and the
    pieces the harness uses to test the mayMatchNumber assumption (str_match,
    try_parse_number, num_is_zero) *)
-Extraction "C14_model.ml" check_line eval_text eval_text_env expand_pat env_of parse_cond str_match try_parse_number num_is_zero.
+Extraction "C14_model.ml" check_line check_file_line scan init_state loads_prefs path_base really_loads_prefs sure_after conditional_prefs_include in_strs eval_text eval_text_env expand_pat env_of parse_cond str_match try_parse_number num_is_zero.
